@@ -37,15 +37,17 @@ func buildReq(cls string, cid, j int) (raw string, method string) {
 	common := fmt.Sprintf("Host: example.org\r\nX-Case: %d\r\nX-Req-Id: %d\r\n", cid, j)
 	smug := fmt.Sprintf("GET /smuggled HTTP/1.1\r\nHost: example.org\r\nX-Case: %d\r\n\r\n", cid)
 	pad := func(n int) string { return smug + strings.Repeat("x", n-len(smug)) }
+	if k := strings.IndexByte(cls, ':'); k > 0 { // "<METHOD>:<none|cl|chunked>"
+		m, f := cls[:k], cls[k+1:]
+		switch f {
+		case "cl":
+			return fmt.Sprintf("%s /r%d HTTP/1.1\r\n%sContent-Length: %d\r\n\r\n%s", m, j, common, len(smug), smug), m
+		case "chunked":
+			return fmt.Sprintf("%s /r%d HTTP/1.1\r\n%sTransfer-Encoding: chunked\r\n\r\n%x\r\n%s\r\n0\r\n\r\n", m, j, common, len(smug), smug), m
+		}
+		return fmt.Sprintf("%s /r%d HTTP/1.1\r\n%s\r\n", m, j, common), m
+	}
 	switch cls {
-	case "get":
-		return fmt.Sprintf("GET /r%d HTTP/1.1\r\n%s\r\n", j, common), "GET"
-	case "head":
-		return fmt.Sprintf("HEAD /r%d HTTP/1.1\r\n%s\r\n", j, common), "HEAD"
-	case "post":
-		return fmt.Sprintf("POST /r%d HTTP/1.1\r\n%sContent-Length: %d\r\n\r\n%s", j, common, len(smug), smug), "POST"
-	case "chunked":
-		return fmt.Sprintf("POST /r%d HTTP/1.1\r\n%sTransfer-Encoding: chunked\r\n\r\n%x\r\n%s\r\n0\r\n\r\n", j, common, len(smug), smug), "POST"
 	case "early":
 		return fmt.Sprintf("POST /r%d HTTP/1.1\r\n%sX-Beh: early\r\nContent-Length: 3000\r\n\r\n%s", j, common, pad(3000)), "POST"
 	case "earlybig":
